@@ -7,8 +7,19 @@ def parse_run(profile, mask, nq, nt, extra=None):
 def dispatch_run(profile, mask, dmask, nq, nt, extra=None):
     return dict(kind="dispatch", profile=profile, mask=mask, dmask=dmask, n_quick=nq, n_thorough=nt, extra=extra or [])
 
-def build_run(nq, nt, profile="build"):
-    return dict(kind="build", profile=profile, mask="11111110", n_quick=nq, n_thorough=nt, extra=[])
+BUILD_SCOPES = {"parse": "00000000", "dispatch": "00100000", "complete": "01100000", "all": "11100000"}
+
+def build_run(nq, nt, profile="build", scope="parse"):
+    # validates the model of the definition API, never an observable of a property.  The first three
+    # mask characters select the field groups compared beyond what the parser reads: help-only,
+    # completion-only, dispatch-only fields (Run/Check.v, bmask): a property is not disturbed by a
+    # change of the definition code that only touches fields it never reads.
+    return dict(kind="build", profile=profile, mask=BUILD_SCOPES[scope], n_quick=nq, n_thorough=nt, extra=[], role="tie")
+
+def tie(run):
+    """marks a correspondence as model validation: a difference is reported as a broken tie, not as
+    an input on which the property fails (the property is decided by the direct oracles of that run)"""
+    run = dict(run); run["role"] = "tie"; return run
 
 def complete_run(nq, nt):
     return dict(kind="complete", profile="complete", mask="11111110", n_quick=nq, n_thorough=nt, extra=[])
@@ -57,13 +68,13 @@ PROPS = {
         rule="unknown long/short/bundled options with and without attached values planted before/after command tokens and in wrapper commands, 3 unknown modes x 3 single-dash modes; non-trivial = an unknown option was reported, warned about or passed through",
     ),
     "C10": dict(
-        runs=[dispatch_run("dispatch", "10011100", "111000", 4000, 200000), build_run(3000, 100000)],
+        runs=[dispatch_run("dispatch", "10011100", "111000", 4000, 200000), build_run(3000, 100000, scope="dispatch")],
         coq_sample=8,
         rule="command trees of depth <= 3 with inherited options, UnsetOptions wrappers and commands without function; Parse then Dispatch with instrumented functions; non-trivial = the tree has commands and exactly one function ran",
         assumptions=["'exactly one function exactly once' is by the result type in the model; on the real library the harness counts invocations and checks the context value"],
     ),
     "C11": dict(
-        runs=[dispatch_run("dispatch", "11000000", "100110", 4000, 200000), build_run(3000, 100000)],
+        runs=[dispatch_run("dispatch", "11000000", "100110", 4000, 200000), build_run(3000, 100000, scope="dispatch")],
         coq_sample=8,
         rule="trees with required options (own/inherited, with/without custom message) and help option/command at every level; non-trivial = a required option was missing or help was requested",
     ),
@@ -94,13 +105,13 @@ PROPS = {
         assumptions=["fairness: task functions return and other graphs release Task locks (the model's environment transitions); under it C16_progress + C16_termination give 'Run returns'"],
     ),
     "C17": dict(
-        runs=[complete_run(5000, 200000), build_run(1500, 50000)],
+        runs=[complete_run(5000, 200000), build_run(1500, 50000, scope="complete")],
         coq_sample=10,
         rule="command trees with aliases, suggested/valid values, value and argument completion functions, wrappers and help; COMP_LINE = program name + 0-4 earlier words that mostly parse + a partial last word (option prefix, --name=prefix, command prefix, word, empty with one or two trailing blanks), bash and zsh targets, bash's three arguments; stdout, Writer, exit code and command function counter compared; non-trivial = at least one earlier word and a non-empty candidate list",
         assumptions=["the completion functions are drawn from a described family of four (constant list, prefix filter, echo of the partial word / number of previous arguments, by target) implemented identically in Go and in Gallina; the theorems quantify over arbitrary functions"],
     ),
     "C18": dict(
-        runs=[dispatch_run("help", "00000000", "000011", 3000, 100000), dispatch_run("dispatch", "00000000", "000011", 2000, 100000), build_run(1500, 60000, "help")],
+        runs=[tie(dispatch_run("help", "00000000", "000011", 3000, 100000)), tie(dispatch_run("dispatch", "00000000", "000011", 2000, 100000)), build_run(1500, 60000, "help", scope="all")],
         coq_sample=8,
         rule="levels with up to 8 options over all 12 kinds, 0-3 aliases, required / env / multi-line descriptions / argument declarations / commands; the exact bytes of Help() and of the help written by Dispatch are compared with the model's rendering; non-trivial = Parse succeeded and the tree has >= 4 option objects",
         trusted_extra=["DefaultStr of numeric defaults (fmt %d %f %t) and HelpArgName are taken from the dump, not recomputed"],
@@ -112,14 +123,14 @@ PROPS = {
         trusted_extra=["the process environment is set by the harness around the definition (os.Setenv), the model gets the same table"],
     ),
     "C19": dict(
-        runs=[parse_run("soup", "10000000", 3000, 300000), dispatch_run("dispatch", "10000000", "000000", 2000, 100000),
-              build_run(2000, 100000), tok_run(30000, 1000000), complete_run(2500, 100000)],
+        runs=[tie(parse_run("soup", "10000000", 3000, 300000)), tie(dispatch_run("dispatch", "10000000", "000000", 2000, 100000)),
+              build_run(2000, 100000, scope="all"), tie(tok_run(30000, 1000000)), tie(complete_run(2500, 100000))],
         coq_sample=10,
         rule="byte soup / weird tokens / 20 kB tokens / 3000-token argv on random definitions, each call under recover() and a 10 s deadline; invalid definitions must panic at definition time exactly when the builder model rejects them; non-trivial = a non-ASCII or control byte is present or argv has >= 50 tokens",
         assumptions=["panics or super-linear behaviour inside Go's regexp/strconv/fmt/sort are outside the model: that part is search (recover + deadline), labelled as such"],
     ),
     "C20": dict(
-        runs=[parse_run("perm", "11111111", 3000, 100000, extra=["-repeat", "6"]), dispatch_run("help", "11111111", "111111", 1500, 50000), build_run(1500, 60000, "build")],
+        runs=[tie(parse_run("perm", "11111111", 3000, 100000, extra=["-repeat", "6"])), tie(dispatch_run("help", "11111111", "111111", 1500, 50000)), build_run(1500, 60000, "build", scope="all")],
         coq_sample=10,
         rule="definitions with several candidates for every diagnostic (missing required options, unknown options, ambiguous prefixes); each case is executed 6 times on fresh definitions (Go randomises map order per range) and all observables incl. error text, warnings and help text must be byte-identical; the model is evaluated on the dumped table order and on every table reversed; non-trivial = the root has >= 2 options",
         assumptions=["cross-process determinism is covered only through repeated in-process definitions (map iteration is randomised per range statement, not per process)"],
